@@ -37,7 +37,18 @@ def main():
                 if m and cid:
                     if m.group(2) not in checks[cid]["sigs"]:
                         checks[cid]["sigs"].append(m.group(2))
-            seen[d] = (verdict, checks)
+            if d in seen and seen[d][0] == "CONFIRMED":
+                # the same change verified again (e.g. after a check was strengthened): later results win per check,
+                # the first result is kept for the record
+                old = seen[d][1]
+                for c, v in checks.items():
+                    if c in old and old[c]["rc"] != v["rc"]:
+                        v["first_rc"] = old[c].get("first_rc", old[c]["rc"])
+                    old[c] = v
+                if verdict == "CONFIRMED":
+                    seen[d] = (verdict, old)
+            else:
+                seen[d] = (verdict, checks)
     os.makedirs(os.path.join(VERIF, "seeded"), exist_ok=True)
     for d, (verdict, checks) in sorted(seen.items()):
         if verdict != "CONFIRMED":
@@ -67,6 +78,8 @@ def main():
                 res[c] = "silent"
             else:
                 res[c] = "inconclusive (exit %d)" % v["rc"]
+            if "first_rc" in v and v["first_rc"] != v["rc"]:
+                res[c] += " (after the check was strengthened; first run: %s)" % {0: "silent", 1: "caught", 2: "harness did not build (exit 2)"}.get(v["first_rc"], "exit %d" % v["first_rc"])
         meta["origin"] = "blind sub-agent: given only the property text and a scratch worktree"
         meta["verified_by_me"] = "tools/verify_seeded.sh: patch applies to /repo HEAD, builds with and without the verif tag, pinned suite passes with the patch, demo fails with the patch and passes without"
         prev = meta.get("checks_run", {}) if d.startswith(os.path.join(VERIF, "seeded")) else {}
